@@ -122,6 +122,26 @@ let do_ml args =
     String.concat " " (stoks @ ftok)
   | _ -> "BADREQ"
 
+(* ---- stream api:  A <codec> <k> <r> <ses>/<call> ...   (ses: 0 e d b; calls as in coq/ApiArgs.v)  -> verdict per call: D 3 2 f *)
+let do_api args =
+  match args with
+  | codec :: k :: r :: calls ->
+    let k = z_of_string k and r = z_of_string r in
+    let one tok =
+      let ses = match tok.[0] with
+        | 'e' -> Some { s_role = REnc; s_codec = z_of_string codec; s_k = k; s_r = r }
+        | 'd' -> Some { s_role = RDec; s_codec = z_of_string codec; s_k = k; s_r = r }
+        | 'b' -> Some { s_role = RBoth; s_codec = z_of_string codec; s_k = k; s_r = r }
+        | _ -> None in
+      let f = Array.of_list (String.split_on_char ':' (String.sub tok 2 (String.length tok - 2))) in
+      let c = match f.(0) with
+        | "B" -> CBuild (z_of_string f.(1)) | "D" -> CDecode (f.(1) = "1", z_of_string f.(2)) | "S" -> CSetAvail (f.(1) = "1")
+        | "F" -> CFinish | "C" -> CIsComplete | "T" -> CGetSrc | "K" -> CSetCb (f.(1) = "1", f.(2) = "1")
+        | _ -> CGetCtl (z_of_string f.(1), f.(2) = "1", z_of_string f.(3)) in
+      match api_verdict ses c with VDispatch -> "D" | VFatal -> "3" | VError -> "2" | VFalse -> "f" in
+    String.concat "," (List.map one calls)
+  | _ -> "BADREQ"
+
 (* ---- stream p2d:  T <nb_rows> <nb_cols>  -> NONE | <d> <l> H<rows> *)
 let do_p2d args =
   match args with
@@ -297,6 +317,7 @@ let () =
       | "W" :: args -> print_endline (do_gj args)
       | "Z" :: args -> print_endline (do_ev args)
       | "Y" :: args -> print_endline (do_bem args)
+      | "A" :: args -> print_endline (do_api args)
       | _ -> print_endline "BADREQ"
     done
   with End_of_file -> ()
